@@ -980,6 +980,97 @@ def c08_large_burst_in_one_go():
 
 
 # ------------------------------------------------------------------------------------------------- batcher
+def c10_failed_batch_does_not_widen_the_concurrency_limit():
+    """C10/C15: max_concurrent_batches=1 still means ONE execution at a time after a batch function has failed."""
+    from aiuti.asyncio import AsyncBackgroundBatcher
+
+    async def sc():
+        gates = {}
+        active = [0, 0]
+        order = []
+
+        async def func(batch):
+            batch = list(batch)
+            k = batch[0][0]
+            active[0] += 1
+            active[1] = max(active[1], active[0])
+            order.append(k)
+            try:
+                await gates.setdefault(k, aio.Event()).wait()
+                if k == 'a':
+                    raise RuntimeError('batch a fails')
+                for key, arg in batch:
+                    yield key, arg
+            finally:
+                active[0] -= 1
+        b = AsyncBackgroundBatcher(func, max_batch_size=1, max_concurrent_batches=1, batch_timeout=0.01)
+        calls = {k: aio.ensure_future(b(k, key=k)) for k in 'abc'}
+        await aio.sleep(1)
+        for k in 'abc':
+            gates.setdefault(k, aio.Event())
+        gates['a'].set()
+        await aio.sleep(1)
+        seen_after_failure = active[1], list(order)
+        gates['b'].set()
+        gates['c'].set()
+        await aio.wait(list(calls.values()), timeout=100)
+        out = []
+        if active[1] > 1:
+            out.append('C10/C15: max_concurrent_batches=1, batch a failed: %d executions of the batch function were in progress '
+                       'at once afterwards (started: %r)' % (active[1], order))
+        for k in 'bc':
+            if not calls[k].done() or calls[k].cancelled() or calls[k].exception() or calls[k].result() != k:
+                out.append('C10: caller %r was not answered with its own value after batch a failed' % k)
+        for t in calls.values():
+            t.cancel()
+        return out
+    return _run(sc)
+
+
+def c09_caller_with_an_absorbed_cancellation_still_queues_its_request():
+    """C09: a task that has absorbed a cancellation (a worker flushing a last item from its `except CancelledError`
+    handler) is a caller like any other: its request is queued, callers sharing the key and later callers are answered."""
+    from aiuti.asyncio import AsyncBackgroundBatcher
+
+    async def sc():
+        async def func(batch):
+            for k, a in list(batch):
+                yield k, a * 10
+        b = AsyncBackgroundBatcher(func, batch_timeout=0.01)
+        box = {}
+        parked = aio.Event()
+
+        async def worker():
+            try:
+                parked.set()
+                await aio.sleep(3600)
+            except aio.CancelledError:
+                box['flush'] = aio.ensure_future(aio.shield(aio.wait_for(b(4, key='last'), 50)))
+                try:
+                    box['own'] = await b(4, key='last')
+                except BaseException as e:  # noqa
+                    box['own'] = e
+        w = aio.ensure_future(worker())
+        await parked.wait()
+        w.cancel()
+        await _turns(3)
+        sharer = aio.ensure_future(b(4, key='last'))
+        done, pending = await aio.wait([sharer], timeout=200)
+        out = []
+        if pending:
+            sharer.cancel()
+            out.append("C09: a caller sharing the key of a request made by a task with an absorbed cancellation was never "
+                       "answered (the request was registered but never queued)")
+        elif sharer.exception() or sharer.result() != 40:
+            out.append('C09: the sharing caller got %r, expected 40' % (sharer.exception() or sharer.result(),))
+        for t in (w, box.get('flush')):
+            if t is not None:
+                t.cancel()
+        await aio.gather(*[t for t in (w, box.get('flush')) if t is not None], return_exceptions=True)
+        return out
+    return _run(sc)
+
+
 def c09_cancelled_first_caller_leaves_the_retention_window_as_it_is():
     """C09/C11: with retention_timeout=R a later caller of the key gets the retained answer inside R and a fresh one
     after R -- the same whether or not the FIRST caller of the key was cancelled while its request was pending."""
@@ -1878,6 +1969,17 @@ def c20_every_kind_of_awaitable_and_failure():
         got = [e async for e in gather_excs([co(None), parked, co(boom)])]
         if len(got) != 2 or not isinstance(got[0], aio.CancelledError) or got[1] is not boom:
             out.append('C20: gather_excs([ok, cancelled child, failing]) yielded %r: not in input order' % (got,))
+        # the collection handed in is read ONCE: tasks that leave a shared registry when done are still reported
+        registry = []
+        fa, fc = E1('reg a'), E1('reg c')
+        for exc in (fa, None, fc):
+            t = aio.ensure_future(co(exc))
+            registry.append(t)
+            t.add_done_callback(registry.remove)
+        got = [e async for e in gather_excs(registry)]
+        if got != [fa, fc]:
+            out.append('C20: gather_excs(<registry that finished tasks remove themselves from>) yielded %r, expected the '
+                       'two failures in input order' % (got,))
         # a narrow `only` filters cancelled children out like anything else that does not match
         for only, want in ((ValueError, ['ValueError']), (LookupError, ['KeyError']), (OSError, []),
                            ((OSError, ValueError), ['ValueError'])):
@@ -1961,12 +2063,15 @@ SCENARIOS = {
             c04_batch_size_lowered_while_assembling, c04_batch_callable_raising_when_called_and_zero_batch_timeout],
     'C09': [c04_owner_cancelled_then_same_key_again_in_the_open_batch, c11_sharer_cancelled_while_pending,
             c09_owner_cancelled_while_every_slot_is_busy, c09_owner_cancelled_while_another_request_is_queued,
-            c09_cancelled_first_caller_leaves_the_retention_window_as_it_is],
-    'C10': [c15_options_form_equals_direct_form_batcher, c04_batch_size_lowered_while_assembling,
+            c09_cancelled_first_caller_leaves_the_retention_window_as_it_is,
+            c09_caller_with_an_absorbed_cancellation_still_queues_its_request],
+    'C10': [c10_failed_batch_does_not_widen_the_concurrency_limit,
+            c15_options_form_equals_direct_form_batcher, c04_batch_size_lowered_while_assembling,
             c04_batch_callable_raising_when_called_and_zero_batch_timeout],
     'C11': [c11_sharer_cancelled_while_pending, c04_owner_cancelled_then_same_key_again_in_the_open_batch,
             c15_options_form_equals_direct_form_batcher],
-    'C15': [c15_options_form_equals_direct_form_batcher, c15_options_form_cache_default],
+    'C15': [c15_options_form_equals_direct_form_batcher, c15_options_form_cache_default,
+            c10_failed_batch_does_not_widen_the_concurrency_limit],
     'C16': [c16_producer_far_ahead_of_the_consumer, c16_debug_mode_and_reused_loop],
     'C17': [c17_every_kind_of_awaitable_crosses_loops, c17_idle_target_does_not_depend_on_the_default_executor,
             c17_stop_function_called_before_the_background_thread_runs_the_loop],
